@@ -129,7 +129,9 @@ def run_impl(op, inp):
         shutil.rmtree(d, ignore_errors=True)
 
 
-PINS = ["abcd1234", "1234567a", "12345678", "abc", "abcdefghi", "abcd123!", "abcd 234", "ábcd1234", "", "ABCDEFGH"]
+PINS = ["abcd1234", "1234567a", "12345678", "abc", "abcdefghi", "abcd123!", "abcd 234", "ábcd1234", "", "ABCDEFGH",
+        # non-ASCII characters whose UTF-8 bytes are Latin-1 letters / digits-like (8 bytes in all)
+        "abcdef\u00ea", "1234ab\u00b5", "123456\u00aa", "abcdef\u00b2", "\u0661\u0662\u0663\u0664"]
 
 
 def gen(tier, rng):
@@ -142,12 +144,12 @@ def gen(tier, rng):
         base = {"platform": plat, "dev": {"seed": rng.getrandbits(32), "state": st, "policy": {}},
                 "device_keys": keys, "seed": seed}
         # onboard
-        for pin, any_pin, answers in itertools.product([None] + PINS[:8], (False, True),
+        for pin, any_pin, answers in itertools.product([None] + PINS[:8] + PINS[10:], (False, True),
                                                        (["yes"], ["no"], ["N"], ["maybe", "YES"], ["", "y", "no"], [])):
             if mode != 2 and (pin not in (None, "abcd1234") or answers != ["yes"]):
                 continue
             inp = dict(base, cmd="onboard", pin=pin, any_pin=any_pin, stdin=answers,
-                       getpass=["bad", "12345678", "abcd1234"] if not any_pin else ["b@d", "77"])
+                       getpass=["bad", "12345678", "123456\u00aa", "abcd1234"] if not any_pin else ["b@d", "1234ab\u00b5", "77"])
             out.append(Case(OP, inp, stream="onboard-" + plat))
         out.append(Case(OP, dict(base, cmd="onboard", pin=None, any_pin=False, stdin=["yes"], getpass=["abcd1234"],
                                  has_output=False), stream="onboard-" + plat))
@@ -161,11 +163,11 @@ def gen(tier, rng):
             out.append(Case(OP, dict(base, dev={"seed": 1, "state": dict(st, **st2), "policy": {}}, cmd="unlock",
                                      pin="1234567a", any_pin=False), stream="unlock-" + plat))
         # changepin
-        for new_pin, any_pin, no_unlock in itertools.product([None] + PINS[:8], (False, True), (False, True)):
+        for new_pin, any_pin, no_unlock in itertools.product([None] + PINS[:8] + PINS[10:], (False, True), (False, True)):
             if mode != 2 and new_pin not in (None, "abcd1234"):
                 continue
             inp = dict(base, cmd="changepin", pin="1234567a", new_pin=new_pin, any_pin=any_pin, no_unlock=no_unlock,
-                       getpass=["short", "abcd5678"] if not any_pin else ["!!", "x1"])
+                       getpass=["short", "abcdef\u00ea", "abcd5678"] if not any_pin else ["!!", "123456\u00aa", "x1"])
             out.append(Case(OP, inp, stream="changepin-" + plat))
         for res in ("invalid", "error"):
             out.append(Case(OP, dict(base, dev={"seed": 1, "state": dict(st, newpin_result=res), "policy": {}},
